@@ -5,8 +5,8 @@ use crate::serializer::SerializationContext;
 use crate::{BinaryDeserializer, BinarySerializer, Error, Result};
 use bigdecimal::FromPrimitive;
 use chrono::{
-    DateTime, FixedOffset, Local, Month, NaiveDate, NaiveDateTime, NaiveTime, TimeZone, Timelike,
-    Utc, Weekday,
+    DateTime, FixedOffset, Local, Month, NaiveDate, NaiveDateTime, NaiveTime, Offset, TimeZone,
+    Timelike, Utc, Weekday,
 };
 use chrono_tz::{OffsetName, Tz};
 use std::str::FromStr;
@@ -205,13 +205,27 @@ impl BinaryDeserializer for NaiveDateTime {
     }
 }
 
+/// The local date and time of `value`, or an error if it is not representable (`DateTime::naive_local` panics in that case)
+fn checked_naive_local<Z: TimeZone>(value: &DateTime<Z>) -> Result<NaiveDateTime> {
+    value
+        .naive_utc()
+        .checked_add_offset(value.offset().fix())
+        .ok_or_else(|| {
+            Error::SerializationFailure(format!(
+                "Local time of {} UTC is out of range",
+                value.naive_utc()
+            ))
+        })
+}
+
 impl BinarySerializer for DateTime<Local> {
     fn serialize<Output: BinaryOutput>(
         &self,
         context: &mut SerializationContext<Output>,
     ) -> Result<()> {
-        self.date_naive().serialize(context)?;
-        self.time().serialize(context)?;
+        let local = checked_naive_local(self)?;
+        local.date().serialize(context)?;
+        local.time().serialize(context)?;
         Ok(())
     }
 }
@@ -232,7 +246,7 @@ impl BinarySerializer for DateTime<FixedOffset> {
         &self,
         context: &mut SerializationContext<Output>,
     ) -> Result<()> {
-        self.naive_local().serialize(context)?;
+        checked_naive_local(self)?.serialize(context)?;
         self.offset().serialize(context)?;
         Ok(())
     }
